@@ -2185,7 +2185,163 @@ var rWriteFaithful = &Rule{
 			"Write compares its input with "+strings.Join(dedupStr(other), ", ")+" besides '\\n': bytes other than the newline are dropped or re-interpreted, so the rendering differs from Error() / from the text redact produced (markers can be re-assembled or split across lines)")
 		c.Check(len(takeBack) == 0, "(*errbase.state).Write: buffered text", w.Pos(), "never taken back",
 			"Write removes text it has already buffered ("+strings.Join(dedupStr(takeBack), ", ")+"): bytes of the message disappear from the rendering")
+		// every newline taken out of the input is given back: whatever Write puts into the buffer that is not a
+		// piece of its input is a separator standing for a pending newline, and a separator is never empty, in
+		// either mode (the lengths are those of the package-level separator and of the literals it is swapped for)
+		nSep := 0
+		sx.EachInstr(w, func(in ssa.Instruction) {
+			call, ok := in.(*ssa.Call)
+			if !ok {
+				return
+			}
+			f := sx.Callee(call)
+			if f == nil || f.Name() != "Write" || f.Signature.Recv() == nil || !sx.IsNamed(f.Signature.Recv().Type(), "bytes", "Buffer") || len(call.Call.Args) != 2 {
+				return
+			}
+			arg := call.Call.Args[1]
+			if dependsOnValue(arg, b, map[ssa.Value]bool{}, 0) {
+				return // a piece of the input
+			}
+			nSep++
+			lo, known := minLenOf(p, arg, 0)
+			c.Check(known && lo >= 1, fmt.Sprintf("(*errbase.state).Write: separator write #%d", nSep), call.Pos(), "a separator written for a pending newline is never empty",
+				fmt.Sprintf("a separator written in place of a pending newline can be empty (minimal length %d over the two modes, known=%v): in that mode consecutive newlines collapse into one, so a message with an empty line renders differently from its Error() text (and a barrier around it no longer keeps the text exactly)", lo, known))
+		})
+		c.Min("separator writes in Write", nSep, 2)
 	},
+}
+
+// minLenOf: a lower bound of len(v) for byte-slice / string values built from constants, package-level
+// byte slices initialised from constants, their merges and their re-slicings.
+func minLenOf(p *load.Program, v ssa.Value, d int) (int64, bool) {
+	if d > 8 {
+		return 0, false
+	}
+	switch x := v.(type) {
+	case *ssa.Const:
+		if s, ok := sx.ConstString(x); ok {
+			return int64(len(s)), true
+		}
+		if x.IsNil() {
+			return 0, true
+		}
+	case *ssa.Convert:
+		return minLenOf(p, x.X, d+1)
+	case *ssa.ChangeType:
+		return minLenOf(p, x.X, d+1)
+	case *ssa.Phi:
+		var lo int64 = 1 << 40
+		for _, e := range x.Edges {
+			n, ok := minLenOf(p, e, d+1)
+			if !ok {
+				return 0, false
+			}
+			if n < lo {
+				lo = n
+			}
+		}
+		return lo, true
+	case *ssa.UnOp:
+		if x.Op != token.MUL {
+			return 0, false
+		}
+		g, ok := x.X.(*ssa.Global)
+		if !ok || g.Pkg == nil {
+			return 0, false
+		}
+		// every store to the global, anywhere in the module, is in an initialiser and stores a constant-length value
+		var lo int64 = 1 << 40
+		n := 0
+		okAll := true
+		for _, fn := range p.ModFuncs() {
+			sx.EachInstr(fn, func(in ssa.Instruction) {
+				st, isSt := in.(*ssa.Store)
+				if !isSt || st.Addr != ssa.Value(g) {
+					return
+				}
+				n++
+				if !strings.HasPrefix(fn.Name(), "init") {
+					okAll = false
+					return
+				}
+				k, ok := minLenOf(p, st.Val, d+1)
+				if !ok {
+					okAll = false
+					return
+				}
+				if k < lo {
+					lo = k
+				}
+			})
+		}
+		if n == 0 || !okAll {
+			return 0, false
+		}
+		return lo, true
+	case *ssa.Slice:
+		base, ok := minLenOf(p, x.X, d+1)
+		if !ok {
+			return 0, false
+		}
+		var low int64
+		if x.Low != nil {
+			k, isK := sx.ConstInt(x.Low)
+			if !isK {
+				return 0, false
+			}
+			low = k
+		}
+		if x.High == nil {
+			return base - low, true
+		}
+		hi, ok := minIntOf(p, x.High, d+1)
+		if !ok {
+			return 0, false
+		}
+		return hi - low, true
+	}
+	return 0, false
+}
+
+// minIntOf: a lower bound of an integer built from constants, len() of values minLenOf understands, and +/-.
+func minIntOf(p *load.Program, v ssa.Value, d int) (int64, bool) {
+	if d > 8 {
+		return 0, false
+	}
+	switch x := v.(type) {
+	case *ssa.Const:
+		return sx.ConstInt(x)
+	case *ssa.Call:
+		if b, ok := x.Call.Value.(*ssa.Builtin); ok && b.Name() == "len" && len(x.Call.Args) == 1 {
+			return minLenOf(p, x.Call.Args[0], d+1)
+		}
+	case *ssa.BinOp:
+		if k, ok := sx.ConstInt(x.Y); ok {
+			a, okA := minIntOf(p, x.X, d+1)
+			if !okA {
+				return 0, false
+			}
+			switch x.Op {
+			case token.SUB:
+				return a - k, true
+			case token.ADD:
+				return a + k, true
+			}
+		}
+	case *ssa.Phi:
+		var lo int64 = 1 << 40
+		for _, e := range x.Edges {
+			n, ok := minIntOf(p, e, d+1)
+			if !ok {
+				return 0, false
+			}
+			if n < lo {
+				lo = n
+			}
+		}
+		return lo, true
+	}
+	return 0, false
 }
 
 // ---------------------------------------------------------------------------
